@@ -98,19 +98,15 @@ package syncer
 //@   ensures same_bytes: s == string(b)
 
 // ---- bidirectional snapshot replay: expanded commands follow the key the policy examined (C20) ----
-//@ func keyspec.CommandKeyIndexes(cmd, args) (idx, ok)
-//@   trusted abstract key-position table (decided under C10/C18 in pkg/redis/keyspec)
-//@   modifies nothing
-//@   ensures fresh_result: len(idx) == 0 || fresh(idx)
 //   keyTableAsked  1 once the key positions of the command have been looked up
 //@ func rewriteBisyncRdbCommandKeys
 //@   arith int
 //@   properties C20
 //@   replay syncer_bisyncBraceKey
 //@   ghost var keyTableAsked mathint = 0
-//@   modifies keyTableAsked
+//@   modifies heap, keyTableAsked
 //@   set keyTableAsked = 1 at call CommandKeyIndexes
-//@   ensures the_commands_follow_the_key_the_policy_examined_whatever_its_length: len(sourceKey) > 0 && !(len(sourceKey) == len(targetKey) && (forall i int :: 0 <= i && i < len(sourceKey) ==> sourceKey[i] == targetKey[i])) ==> keyTableAsked == 1
+//@   ensures the_commands_follow_the_key_the_policy_examined_whatever_its_length: old(len(sourceKey) > 0 && !(len(sourceKey) == len(targetKey) && (forall i int :: 0 <= i && i < len(sourceKey) ==> sourceKey[i] == targetKey[i]))) ==> keyTableAsked == 1
 //@   ensures same_arity: len(result) == len(args)
 //@   loop 1:
 //@     invariant arity: len(rewritten) == len(args) && 0 - 1 <= rangeindex
